@@ -237,7 +237,8 @@ func drawValidStream(t *rapid.T, max int) StreamSpec {
 }
 
 var faultKinds = []string{synth.FDistTooFar, synth.FDistTooFar, synth.FIncompleteDist, synth.FIncompleteDist, synth.FUnassignedDist, synth.FNoDistCode, synth.FOverLit, synth.FOverDist, synth.FOverCL,
-	synth.FIncompleteLit, synth.FMissingEOB, synth.FRepeatFirst, synth.FRunPast, synth.FStoredLen, synth.FReserved, synth.FBadLenSym, synth.FBadDistSym, synth.FHLIT}
+	synth.FIncompleteLit, synth.FMissingEOB, synth.FRepeatFirst, synth.FRunPast, synth.FStoredLen, synth.FReserved, synth.FBadLenSym, synth.FBadDistSym, synth.FHLIT,
+	synth.FRawDistLens, synth.FRawDistLens}
 
 // drawFaultyStream draws a synthesised stream with one injected fault.
 func drawFaultyStream(t *rapid.T) StreamSpec {
@@ -258,6 +259,19 @@ func drawFaultyStream(t *rapid.T) StreamSpec {
 		}
 		if p.MatchPct < 30 {
 			p.MatchPct = 30
+		}
+	}
+	if f.Kind == synth.FRawDistLens {
+		// any multiset of distance code lengths (complete, incomplete, over-subscribed), mostly long codes:
+		// the decoder's table construction must cope with every shape the header syntax can express
+		lo := rapid.SampledFrom([]int{1, 6, 9, 11, 11, 13}).Draw(t, "rawlo")
+		n := rapid.IntRange(1, 30).Draw(t, "rawn")
+		for i := 0; i < n; i++ {
+			l := rapid.IntRange(lo, 15).Draw(t, "rawlen")
+			if rapid.IntRange(0, 9).Draw(t, "rawzero") == 0 {
+				l = 0
+			}
+			f.Lens = append(f.Lens, l)
 		}
 	}
 	s.Fault = f
